@@ -278,3 +278,27 @@ mod tests {
         assert!(a.contains("nouh=0"));
     }
 }
+
+
+/// C04 ("well-formed programs never panic") quantifies over every world, not only the graph world: a panic that a
+/// world files under its own property (`C08.panic`, `C12.panic`, `C14.panic`, `C16.panic`, `C15.panic`, `C20.panic`) in a
+/// history that keeps to the documented usage rules is filed under C04 as well when C04 is armed (after seed C04-f,
+/// whose panic only the variable world could reach). The limits world is never run with C04 armed (it breaks the rules on
+/// purpose).
+pub fn also_as_c04(cfg: &Cfg, vs: &mut Vec<Violation>) {
+    if !cfg.armed.contains(&"C04") {
+        return;
+    }
+    let extra: Vec<Violation> = vs
+        .iter()
+        .filter(|v| v.property != "C04" && v.property != "MACHINERY" && v.rule.ends_with(".panic"))
+        .map(|v| Violation::new("C04", "C04.panic", format!("{}:{}", v.property, v.sig), v.detail.clone()))
+        .collect();
+    let mut seen: Vec<String> = vs.iter().filter(|v| v.property == "C04").map(|v| v.sig.clone()).collect();
+    for e in extra {
+        if !seen.contains(&e.sig) {
+            seen.push(e.sig.clone());
+            vs.push(e);
+        }
+    }
+}
